@@ -73,9 +73,13 @@ def decide(stmts, atom: Callable[[ast.AST, dict], Optional[bool]], env: dict, bi
             v = s.value
             if isinstance(v, ast.Name) and v.id in b and b[v.id] is not None:
                 v = b[v.id]
-            return Outcome("return", v, list(eff), s)
+            o = Outcome("return", v, list(eff), s)
+            o.bindings = dict(b)  # type: ignore[attr-defined]
+            return o
         elif isinstance(s, ast.Raise):
-            return Outcome("raise", s.exc, list(eff), s)
+            o = Outcome("raise", s.exc, list(eff), s)
+            o.bindings = dict(b)  # type: ignore[attr-defined]
+            return o
         elif isinstance(s, ast.Break):
             return Outcome("break", None, list(eff), s)
         elif isinstance(s, ast.Continue):
